@@ -10,3 +10,4 @@ import TLX.Props.Translated.QuicSess
 import TLX.Props.Translated.Demux
 import TLX.Props.Translated.Ports
 import TLX.Props.Translated.TlsSess
+import TLX.Props.Translated.Reasm
